@@ -39,6 +39,29 @@ def directed_cases():
                              "fail_rule": {f"on_LTc_removed|{longkey!r}": 4, f"on_LTc_removed|{shortkey!r}": 1}}
             c["sseed"], c["session_opts"] = 0, {}
             out.append(c)
+    # twin parents: the two parents of a membership hold the same local data (same attribute names
+    # and values, e.g. a user and its private group); the membership's 'added' keeps failing while
+    # both parents are modified, then removed together with it
+    q1 = {"Ta": {1: row(ta, id=1), 2: row(ta, id=2)}, "Tb": {1: row(tb, id=1), 2: row(tb, id=2)},
+          "Tc": {(1, 1): row(tc, aid=1, bid=1), (2, 2): row(tc, aid=2, bid=2)}}
+    q2 = copy.deepcopy(q1)
+    q2["Ta"][1]["x"], q2["Tb"][1]["x"] = 2, 2
+    q3 = {"Ta": {2: q2["Ta"][2]}, "Tb": {2: q2["Tb"][2]}, "Tc": {(2, 2): q2["Tc"][(2, 2)]}}
+    if "x" in ta["attrs"] and "x" in tb["attrs"]:
+        for pol in ("on_remove_event", "on_every_event"):
+            for nfail in (3, 6):
+                c = copy.deepcopy(base)
+                c["cdm"]["LTa"]["attrsmapping"] = {"l_x": "x"}
+                c["cdm"]["LTb"]["attrsmapping"] = {"l_x": "x"}
+                c["polls"] = [srvcase.to_remote_tables(c["cfg"], q) for q in (q1, q2, q3)]
+                c["fkpolicy"], c["retention"], c["remediation"] = pol, 0, "disabled"
+                its = [{"limit": 8, "now": 10, "restart": False, "faults": True},
+                       {"limit": 10, "now": 20, "restart": False, "faults": True}]
+                its += [{"limit": 13, "now": 30 + 10 * j, "restart": False, "faults": True} for j in range(3)]
+                its += [{"limit": 13, "now": 100 + 10 * j, "restart": False, "faults": False} for j in range(4)]
+                c["sessions"] = {"iters": its, "outcomes": ["ok"] * 60, "fail_rule": {f"on_LTc_added|{(1, 1)!r}": nfail}}
+                c["sseed"], c["session_opts"] = 0, {}
+                out.append(c)
     return out
 
 
